@@ -152,8 +152,8 @@ Garbage(s, t) ==
 DataConnect(s, t) ==
   LET r == ss[s] IN
   /\ r.ph \in {"open", "drain"} /\ r.lsn # 0 /\ At(t)
-  /\ IF r.dc = "parked" \/ (r.w.v # "" /\ r.w.sock)
-       THEN Upd(s, [r EXCEPT !.xd = @ + 1])                          \* refused: closed at once
+  /\ IF r.dc = "parked"                                              \* (a worker that has taken its connection does not
+       THEN Upd(s, [r EXCEPT !.xd = @ + 1])                          \*  stand in the way)  refused: closed at once
      ELSE IF r.w.v # "" /\ r.w.st = "wait"
        THEN Upd(s, [r EXCEPT !.w.st = "run", !.w.sock = TRUE, !.w.had = TRUE, !.cdata = TRUE, !.din = <<>>, !.dineof = FALSE,
                              !.w.dl = IF SockT > 0 THEN t + SockT ELSE 0])
